@@ -9,6 +9,8 @@ WT=/tmp/seed/$TAG
 cd "$WT" || exit 2
 export CARGO_NET_OFFLINE=true
 unset RUSTFLAGS
+# an interrupted earlier run may have left the demonstration files in the hold area: put them back first
+[ -f "$WT/out/_hold/files.tar" ] && tar xf "$WT/out/_hold/files.tar" && rm -rf "$WT/out/_hold"
 git checkout -q -- . || exit 2
 L=$WT/out/verify.log; : > "$L"
 echo "== demo without patch: $*" >> "$L"
@@ -21,16 +23,17 @@ HOLD=$WT/out/_hold; rm -rf "$HOLD"; mkdir -p "$HOLD"
 git ls-files --others --exclude-standard | grep -v -E '^(out/|target)' > "$HOLD/list"
 tar cf "$HOLD/files.tar" -T "$HOLD/list" 2>/dev/null && xargs -a "$HOLD/list" rm -f
 T=0
-for c in ${CRATES//,/ }; do
-  echo "== cargo test -p $c with patch" >> "$L"
-  if ! cargo test -p "$c" --offline --no-fail-fast > "$WT/out/_crate_$c.log" 2>&1; then
+for spec in ${CRATES//,/ }; do
+  c=${spec%%:*}; X=""; [ "$spec" != "$c" ] && X=${spec#*:}     # crate[:extra-cargo-flag], e.g. libp2p-identity:--all-features
+  echo "== cargo test -p $c $X with patch" >> "$L"
+  if ! cargo test -p "$c" $X --offline --no-fail-fast > "$WT/out/_crate_$c.log" 2>&1; then
     cat "$WT/out/_crate_$c.log" >> "$L"
     # timing-based tests of the repository flake on a loaded machine: re-run each failed test alone, up to 3 times
     for t in $(grep -E '^test .* \.\.\. FAILED' "$WT/out/_crate_$c.log" | awk '{print $2}' | sort -u); do
       ok=1
       for k in 1 2 3; do
         echo "== rerun $t ($k)" >> "$L"
-        if cargo test -p "$c" --offline -- --exact "$t" >> "$L" 2>&1; then ok=0; break; fi
+        if cargo test -p "$c" $X --offline -- --exact "$t" >> "$L" 2>&1; then ok=0; break; fi
       done
       [ $ok = 0 ] || T=1
     done
@@ -42,7 +45,7 @@ done
 tar xf "$HOLD/files.tar" 2>/dev/null; rm -rf "$HOLD"
 echo "== cfg check" >> "$L"
 C=0
-for c in ${CRATES//,/ }; do RUSTFLAGS="--cfg libp2p_verif" cargo check -p "$c" --offline --target-dir "$WT/target-cfg" >> "$L" 2>&1 || C=1; done
+for spec in ${CRATES//,/ }; do c=${spec%%:*}; RUSTFLAGS="--cfg libp2p_verif" cargo check -p "$c" --offline --target-dir "$WT/target-cfg" >> "$L" 2>&1 || C=1; done
 git checkout -q -- .
 echo "{\"tag\":\"$TAG\",\"patch\":\"$(basename $PATCH)\",\"demo_without\":$D0,\"demo_with\":$D1,\"crate_tests_with\":$T,\"cfg_check\":$C}"
 [ $D0 = 0 ] && [ $D1 != 0 ] && [ $T = 0 ] && [ $C = 0 ]
